@@ -12,7 +12,8 @@
 //	open:<n>:<tid>:<map>:<sec>:-:<sc>:<tc>:<host>:<port>      startSourceBridge on node n (source node = "node-<n>")
 //	look:<n>:<tid>  rem:<n>:<tid>  end:<n>:<tid>               Lookup / Remove / end of the bridge lifecycle
 //	adv:<ms>   real sleep + Redis FastForward     advw:<ms> real sleep only     advs:<ms> Redis FastForward only
-//	rega:<n>:<nid>:<addr>  geta:<n>:<nid>                      RegisterNodeAddress / GetNodeAddress
+//	rega:<n>:<nid>:<addr>  geta:<n>:<nid>                      RegisterNodeAddress / GetNodeAddress ("@0".."@3" = live endpoints)
+//	fwd:<n>:<tid>                                              target arrives on node n: Lookup + TunnelConnectionManager.CreateDedicatedConnection
 //
 // obs: one token per event (ok eparam nf exp eint estore edata exists skip addr:<hex> found:<fields>:<ttl ms>).
 package main
@@ -216,6 +217,7 @@ type env struct {
 	tables  []*tunnel.RoutingTable
 	stores  []*countStore
 	sms     []*session.SessionManager
+	mgrs    []*session.TunnelConnectionManager
 	ccs     []*fakeCC
 	conns   []net.Conn
 	start   time.Time
@@ -274,6 +276,11 @@ func newEnv(backend string, ttls []int) (*env, error) {
 }
 
 func (e *env) close() {
+	for _, m := range e.mgrs {
+		if m != nil {
+			m.Close()
+		}
+	}
 	// let every lifecycle goroutine finish its cleanup before the (reused) Redis server goes to the next case
 	for n, sm := range e.sms {
 		if sm == nil {
@@ -463,7 +470,7 @@ func (e *env) exec(tok string) string {
 		return "skip"
 	case "rega":
 		n := node()
-		if err := e.tables[n].RegisterNodeAddress(uh(f[2]), uh(f[3])); err != nil {
+		if err := e.tables[n].RegisterNodeAddress(uh(f[2]), realAddr(uh(f[3]))); err != nil {
 			return errTok(err)
 		}
 		return "ok"
@@ -473,7 +480,9 @@ func (e *env) exec(tok string) string {
 		if err != nil {
 			return errTok(err)
 		}
-		return "addr:" + hx(a)
+		return "addr:" + hx(symAddr(a))
+	case "fwd":
+		return e.forward(node(), uh(f[2]))
 	}
 	panic("unknown event " + tok)
 }
